@@ -167,9 +167,7 @@ void c14_file_destroy(sqfs_object_t *obj)
 static sqfs_file_t g_file;
 static unsigned g_obj_destroyed;
 
-/* file object in an arbitrary state of the append phase: a provisional
- * superblock is in place, i.e. tracked size >= sizeof(super) */
-static void c14_file_init(sqfs_u64 size)
+static void c14_file_object_init(sqfs_u64 size)
 {
 	g_file.base.refcount = 1;
 	g_file.base.destroy = c14_file_destroy;
@@ -179,9 +177,13 @@ static void c14_file_init(sqfs_u64 size)
 	g_file.get_size = c14_get_size;
 	g_file.truncate = c14_truncate;
 	g_file.get_filename = NULL;
-	/* ghost state is initialised explicitly: goto-instrument's contract
-	 * passes make statics nondeterministic */
 	g_fsize = size;
+}
+
+/* ghost state is initialised explicitly: goto-instrument's contract passes
+ * make statics nondeterministic */
+static void c14_ghost_init(void)
+{
 	g_seq = 0;
 	g_nwrite = 0;
 	g_ntrunc = 0;
@@ -195,6 +197,14 @@ static void c14_file_init(sqfs_u64 size)
 	g_file_destroy_seq = 0;
 	g_obj_destroyed = 0;
 	g_w_k = verif_nd_size("w_k");
+}
+
+/* file object in an arbitrary state of the append phase: a provisional
+ * superblock is in place, i.e. tracked size >= sizeof(super) */
+static void c14_file_init(sqfs_u64 size)
+{
+	c14_ghost_init();
+	c14_file_object_init(size);
 }
 
 /* ---- compressor contract (DESIGN section 3): any r <= outsize, negative =
